@@ -188,6 +188,14 @@ def apply_step(step, vals, shared=None, salt=0):
     op, a, p = step["op"], [vals[i] for i in step["args"]], step.get("p", {})
     if op == "ph":
         return pt.make_placeholder(p["name"], tuple(p["shape"]), np.dtype(p["dtype"]))
+    if op == "dwscalar":
+        # a numpy scalar (not a 0-d array) as wrapped data
+        if shared is not None and step["id"] in shared:
+            return shared[step["id"]]
+        res = pt.make_data_wrapper(getattr(np, p["dtype"])(p["value"] + salt % 7))
+        if shared is not None:
+            shared[step["id"]] = res
+        return res
     if op in ("dw", "dwgen"):
         if shared is not None and step["id"] in shared:
             return shared[step["id"]]
@@ -235,6 +243,9 @@ def apply_step(step, vals, shared=None, salt=0):
         return getattr(pt, op)(a[0], a[1])
     if op == "scalar":
         c = complex(*p["c"]) if isinstance(p["c"], list) else p["c"]
+        if p.get("ctype"):
+            # a numpy-typed scalar (kept as such inside the expression)
+            c = getattr(np, p["ctype"])(c)
         k = p["kind"]
         if k == "add":
             return a[0] + c
@@ -445,6 +456,11 @@ class _G:
                                         "shape": list(rng.choice(BULK_SHAPES)),
                                         "layout": rng.choice(
                                             ["C", "C", "C", "F", "strided"])}})
+        if self.profile == "any" and rng.random() < 0.04:
+            return self.try_step({"op": "dwscalar", "args": [],
+                                  "p": {"dtype": rng.choice(
+                                      ["float32", "float64", "int32", "int64"]),
+                                      "value": rng.randint(-3, 3)}})
         if k < 0.5:
             self.nph += 1
             return self.try_step({"op": "ph", "args": [],
@@ -521,10 +537,19 @@ class _G:
             return self.try_step({"op": rng.choice(BINARY), "args": [a, b]})
         if k == "scalar":
             c = rng.choice([2, -1, 0.5, 3, 1.5, [1.0, 2.0]])
-            return self.try_step({"op": "scalar", "args": [a],
-                                  "p": {"c": c, "kind": rng.choice(
-                                      ["add", "radd", "mul", "rsub", "rdiv",
-                                       "div", "pow", "cmp"])}})
+            pp = {"c": c, "kind": rng.choice(
+                ["add", "radd", "mul", "rsub", "rdiv", "div", "pow", "cmp"])}
+            if rng.random() < 0.35:
+                if isinstance(c, list):
+                    pp["ctype"] = rng.choice(["complex64", "complex128"])
+                elif isinstance(c, int):
+                    pp["ctype"] = rng.choice(["int32", "int64", "int8", "uint32",
+                                              "float32", "float64"])
+                    if pp["ctype"] == "uint32" and c < 0:
+                        pp["ctype"] = "int32"
+                else:
+                    pp["ctype"] = rng.choice(["float32", "float64"])
+            return self.try_step({"op": "scalar", "args": [a], "p": pp})
         if k == "where":
             c = self.pick(lambda v: v.dtype == np.bool_)
             if c is None:
